@@ -200,6 +200,7 @@ class Scale(EnvironmentFilter):
     def _get_shift_and_scale(self,values) -> Tuple[float,float]:
         try:
             values = [v for v in values if v is not None]
+            if not all(isinstance(v,(int,float)) for v in values): return None #only numeric features are scaled
             shift = self._shift_value(values)
             scale = self._scale_value(values,shift)
 
@@ -399,6 +400,7 @@ class Impute(EnvironmentFilter):
     def _get_imputation(self,values):
         try:
             values = [v for v in values if v is not None]
+            if self._stat != "mode" and not all(isinstance(v,(int,float)) for v in values): return None
             if self._stat == "mean":
                 return sum(values)/len(values)
             if self._stat == "median":
